@@ -1,0 +1,57 @@
+//go:build verif
+
+package bbc
+
+// Hooks for the out-of-tree verification harness (build tag verif). Add-only: nothing here is
+// compiled into a normal build.
+
+// VerifNewPlainOutgoingTransmission exposes newPlainOutgoingTransmission (no xz compression).
+func VerifNewPlainOutgoingTransmission(transmissionID byte, payload []byte, mtu int) (*OutgoingTransmission, error) {
+	return newPlainOutgoingTransmission(transmissionID, payload, mtu)
+}
+
+// VerifNextSequenceNumber exposes nextSequenceNumber.
+func VerifNextSequenceNumber(seq byte) byte { return nextSequenceNumber(seq) }
+
+// VerifNextTransmissionId exposes nextTransmissionId.
+func VerifNextTransmissionId(tid byte) byte { return nextTransmissionId(tid) }
+
+// VerifIdentifier returns the raw second header byte of a Fragment.
+func (f Fragment) VerifIdentifier() byte { return f.identifier }
+
+// VerifHandleIncomingFragment runs the Connector's fragment handler synchronously.
+func (c *Connector) VerifHandleIncomingFragment(f Fragment) error {
+	return c.handleIncomingFragment(f)
+}
+
+// VerifOpenTransmissions lists the transmission IDs currently in the table.
+func (c *Connector) VerifOpenTransmissions() (tids []byte) {
+	for tid := range c.transmissions {
+		tids = append(tids, tid)
+	}
+	return
+}
+
+// VerifDrainFragmentOut empties the outgoing fragment queue without blocking.
+func (c *Connector) VerifDrainFragmentOut() (fs []Fragment) {
+	for {
+		select {
+		case f := <-c.fragmentOut:
+			fs = append(fs, f)
+		default:
+			return
+		}
+	}
+}
+
+// VerifDrainFailTransmission empties the queue of failed transmission IDs without blocking.
+func (c *Connector) VerifDrainFailTransmission() (tids []byte) {
+	for {
+		select {
+		case t := <-c.failTransmission:
+			tids = append(tids, t)
+		default:
+			return
+		}
+	}
+}
